@@ -149,21 +149,44 @@ def rule_r2(chk, p, t):
     )
     wn = p.func(f"{MATHS}.wrapAngleNegPiPi")
 
+    def _paths(fn):
+        from rsa.terms import NotEvaluable, returned_exprs
+
+        try:
+            return returned_exprs(fn)
+        except NotEvaluable as e:
+            raise Undecided(f"{fn.name}: {e}", fn.node)
+
+    def _one_cond(conds, fn):
+        """The single comparison a two-path wrap helper branches on: (lhs text, op class, rhs text, polarity)."""
+        cs = [(c, pol) for c, pol in conds]
+        require(len(cs) == 1 and isinstance(cs[0][0], ast.Compare) and len(cs[0][0].ops) == 1, f"{fn.name}: one comparison expected on each path", fn.node)
+        c, pol = cs[0]
+        return unparse(c.left), type(c.ops[0]), unparse(c.comparators[0]), pol
+
     def f1():
         prm = wn.params[0]
-        body = [s for s in wn.node.body if not (isinstance(s, ast.Expr) and isinstance(s.value, ast.Constant))]
-        first = body[0] if body else None
-        ok_mod = isinstance(first, ast.Assign) and unparse(first.targets[0]) == prm and isinstance(first.value, ast.Call) and call_name(first.value) in ("remainder", "fmod", "mod") and [unparse(a) for a in first.value.args] == [prm, "const.TWOPI"]
-        ok_mod = ok_mod or (isinstance(first, ast.Assign) and isinstance(first.value, ast.BinOp) and isinstance(first.value.op, ast.Mod) and unparse(first.value.right) == "const.TWOPI")
-        ifs = [s for s in body if isinstance(s, ast.If)]
-        ok_fix = False
-        if len(ifs) == 1:
-            tst = ifs[0].test
-            fixes = [s for s in ifs[0].body if isinstance(s, ast.AugAssign)]
-            ok_fix = isinstance(tst, ast.Compare) and isinstance(tst.ops[0], ast.Gt) and unparse(tst.left) in (f"fabs({prm})", f"abs({prm})") and unparse(tst.comparators[0]) == "const.PI" and len(fixes) == 1 and isinstance(fixes[0].op, ast.Sub) and canon(fixes[0].value) == canon(ast.parse(f"const.TWOPI * sign({prm})", mode="eval").body)
-        rets = _returns(wn)
-        if ok_mod and ok_fix and len(rets) == 1 and unparse(rets[0].value) == prm:
-            r.ok(wn.qualname, "x mod 2pi, then -2pi*sign(x) when |x| > pi: range (-pi, pi]", wn.loc())
+        paths = _paths(wn)
+        require(len(paths) == 2, "wrapAngleNegPiPi: two paths expected (inside / outside (-pi, pi])", wn.node)
+        M = [f"remainder({prm}, const.TWOPI)", f"mod({prm}, const.TWOPI)", f"{prm} % const.TWOPI"]
+        ok_mod = ok_fix = True
+        for e, conds in paths:
+            lhs, op, rhs, pol = _one_cond(conds, wn)
+            m = next((x for x in M if lhs in (f"fabs({x})", f"abs({x})")), None)
+            # |m| > pi  (or the mirrored / negated spelling): outside = correction applies
+            if m is None or rhs != "const.PI" or op not in (ast.Gt, ast.LtE):
+                ok_fix = False
+                ok_mod = ok_mod and m is not None
+                continue
+            outside = pol if op is ast.Gt else not pol
+            want = f"{m} - const.TWOPI * sign({m})" if outside else m
+            if canon(e) != canon(ast.parse(want, mode="eval").body):
+                if outside:
+                    ok_fix = False
+                else:
+                    ok_mod = False
+        if ok_mod and ok_fix:
+            r.ok(wn.qualname, "x mod 2pi, then -2pi*sign(x) when |x| > pi: range (-pi, pi] (path-wise)", wn.loc())
         else:
             r.violation(wn.qualname, f"wrap-neg-pi-pi:{ok_mod}:{ok_fix}", "wrapAngleNegPiPi is no longer `x mod 2pi` followed by the `|x| > pi` correction (a `>=` would move the closed end to -pi; a missing modulo breaks invariance to whole turns)", wn.loc())
 
@@ -172,16 +195,24 @@ def rule_r2(chk, p, t):
 
     def f2():
         prm = w2.params[0]
-        ifs = [s for s in w2.node.body if isinstance(s, ast.If)]
-        require(len(ifs) == 1, "wrapAngle2Pi: one correction branch expected", w2.node)
-        tst = ifs[0].test
-        txt = unparse(tst)
-        ok_mod = (f"fmod({prm}, const.TWOPI)" in txt or f"remainder({prm}, const.TWOPI)" in txt or any(isinstance(n, ast.Assign) and "const.TWOPI" in unparse(n.value) and call_name(n.value) in ("fmod", "remainder") for n in w2.node.body if isinstance(n, ast.Assign) and isinstance(n.value, ast.Call)))
-        ok_cmp = isinstance(tst, ast.Compare) and isinstance(tst.ops[0], ast.Lt) and unparse(tst.comparators[0]) in ("0", "0.0")
-        fixes = [s for s in ifs[0].body if isinstance(s, ast.AugAssign)]
-        ok_fix = len(fixes) == 1 and isinstance(fixes[0].op, ast.Add) and unparse(fixes[0].value) == "const.TWOPI"
+        paths = _paths(w2)
+        require(len(paths) == 2, "wrapAngle2Pi: two paths expected (negative remainder / not)", w2.node)
+        M = [f"fmod({prm}, const.TWOPI)", f"remainder({prm}, const.TWOPI)"]
+        ok_mod = ok_cmp = ok_fix = True
+        for e, conds in paths:
+            lhs, op, rhs, pol = _one_cond(conds, w2)
+            if lhs not in M:
+                ok_mod = False
+                continue
+            if rhs not in ("0", "0.0") or op not in (ast.Lt, ast.GtE):
+                ok_cmp = False
+                continue
+            negative = pol if op is ast.Lt else not pol
+            want = f"{lhs} + const.TWOPI" if negative else lhs
+            if canon(e) != canon(ast.parse(want, mode="eval").body):
+                ok_fix = False
         if ok_mod and ok_cmp and ok_fix:
-            r.ok(w2.qualname, "fmod(x, 2pi), +2pi when negative: range [0, 2pi)", w2.loc())
+            r.ok(w2.qualname, "fmod(x, 2pi), +2pi when negative: range [0, 2pi) (path-wise)", w2.loc())
         else:
             r.violation(w2.qualname, f"wrap-2pi:{ok_mod}:{ok_cmp}:{ok_fix}", "wrapAngle2Pi is no longer fmod(x, 2pi) with +2pi for negative results", w2.loc())
 
@@ -190,35 +221,38 @@ def rule_r2(chk, p, t):
 
     def f3():
         a, b, ang = rs.params
-        rets = _returns(rs)
-        require(len(rets) == 1, "residual: single return expected", rs.node)
-        e = rets[0].value
-        if isinstance(e, ast.IfExp):
-            tst, angular, plain = e.test, e.body, e.orelse
-            if isinstance(tst, ast.UnaryOp) and isinstance(tst.op, ast.Not):
-                tst, angular, plain = tst.operand, plain, angular
-        else:
-            raise Undecided("residual is not a conditional expression on the angular flag", rets[0])
+        paths = _paths(rs)
+        angular = plain = None
         bad = []
-        if unparse(tst) != ang:
-            bad.append(f"condition `{unparse(tst)}`")
-        if unparse(plain) != f"{a} - {b}":
+        for e, conds in paths:
+            flags = [(unparse(c), pol) for c, pol in conds]
+            if flags == [(ang, True)] or flags == [(f"not {ang}", False)]:
+                angular = e
+            elif flags == [(ang, False)] or flags == [(f"not {ang}", True)]:
+                plain = e
+            else:
+                bad.append(f"condition `{flags}`")
+        if angular is None or plain is None:
+            if not bad:
+                raise Undecided("residual does not branch on the angular flag alone", rs.node)
+        if plain is not None and unparse(plain) != f"{a} - {b}":
             bad.append(f"non-angular branch `{unparse(plain)}` (expected {a} - {b})")
-        if not (isinstance(angular, ast.Call) and call_name(angular) in ("wrapAngleNegPiPi",) and len(angular.args) == 1):
-            bad.append(f"angular branch `{unparse(angular)}` does not end in the (-pi, pi] wrap of the difference")
-        else:
-            d = angular.args[0]
-            ok_d = isinstance(d, ast.BinOp) and isinstance(d.op, ast.Sub)
-            if ok_d:
-                def core(x):
-                    return x.args[0] if isinstance(x, ast.Call) and call_name(x) in ("wrapAngle2Pi",) and x.args else x
-                ok_d = unparse(core(d.left)) == a and unparse(core(d.right)) == b
-            if not ok_d:
-                bad.append(f"wrapped expression `{unparse(d)}` is not (first - second)")
+        if angular is not None:
+            if not (isinstance(angular, ast.Call) and call_name(angular) in ("wrapAngleNegPiPi",) and len(angular.args) == 1):
+                bad.append(f"angular branch `{unparse(angular)}` does not end in the (-pi, pi] wrap of the difference")
+            else:
+                d = angular.args[0]
+                ok_d = isinstance(d, ast.BinOp) and isinstance(d.op, ast.Sub)
+                if ok_d:
+                    def core(x):
+                        return x.args[0] if isinstance(x, ast.Call) and call_name(x) in ("wrapAngle2Pi",) and x.args else x
+                    ok_d = unparse(core(d.left)) == a and unparse(core(d.right)) == b
+                if not ok_d:
+                    bad.append(f"wrapped expression `{unparse(d)}` is not (first - second)")
         if bad:
             r.violation(rs.qualname, "residual:" + ";".join(bad), "scalar residual: " + "; ".join(bad), rs.loc())
         else:
-            r.ok(rs.qualname, "wrapAngleNegPiPi(a - b) if angular else a - b", rs.loc())
+            r.ok(rs.qualname, "wrapAngleNegPiPi(a - b) if angular else a - b (path-wise)", rs.loc())
 
     r.guard(rs.qualname, f3)
     rv = p.func(f"{MATHS}.residuals")
